@@ -39,16 +39,18 @@ ASSUMPTIONS = [
 NSHARDS = {"quick": 16, "thorough": 16}
 BUDGET_S = {"quick": 25, "thorough": 400}
 FLOORS = {
-    "quick": {"evaluations": 15000, "distinct": 10000,
-              "counters": {"method_cases": 8000, "mutating_attempts": 1500,
-                           "security_errors": 1500, "filter_cases": 5000,
-                           "async_renders": 5000, "comparisons": 15000,
-                           "method_names": 100, "filters_covered": 40}},
-    "thorough": {"evaluations": 60000, "distinct": 40000,
-                 "counters": {"method_cases": 30000, "mutating_attempts": 6000,
-                              "security_errors": 6000, "filter_cases": 20000,
-                              "async_renders": 20000, "comparisons": 60000,
-                              "method_names": 100, "filters_covered": 40}},
+    "quick": {"evaluations": 8000, "distinct": 8000,
+              "counters": {"method_cases": 4000, "mutating_attempts": 1500,
+                           "security_errors": 1200, "filter_cases": 3500,
+                           "async_renders": 5000, "comparisons": 8000,
+                           "method_names": 150, "filters_covered": 40,
+                           "defined_checks": 300}},
+    "thorough": {"evaluations": 60000, "distinct": 60000,
+                 "counters": {"method_cases": 30000, "mutating_attempts": 8000,
+                              "security_errors": 6000, "filter_cases": 30000,
+                              "async_renders": 30000, "comparisons": 60000,
+                              "method_names": 150, "filters_covered": 40,
+                              "defined_checks": 300}},
 }
 
 TYPES = {"list": list, "dict": dict, "set": set, "deque": collections.deque}
